@@ -153,7 +153,9 @@ def onNewConnectionId (s : Handler) (seq rpt : Nat) (cid tok : Bytes) : Handler 
   match insert s.q seq rpt cid tok with
   | (_, .panic) => (s, .panic)
   | (q', .errLimit) => ({ s with q := q' }, .err Gen.ncidExceedsLimitCode 3)
-  | (q', .errRetired) => ({ s with q := q', pending := s.pending ++ [seq] }, .discarded)
+  | (q', .errRetired) =>
+    if Gen.ncidRetiredArmFull s.pending.length then ({ s with q := q' }, .err Gen.ncidRetiredArmFullCode 4)
+    else ({ s with q := q', pending := s.pending ++ [seq] }, .discarded)
   | (q', .retired start stop _) =>
     if Gen.ncidTooManyRetired s.pending.length start stop then
       ({ s with q := q' }, .err Gen.ncidTooManyRetiredCode 2)
